@@ -33,7 +33,7 @@ def gen_spec(rnd):
     nw = rnd.randint(2, 5)
     ws = []
     for i in range(nw):
-        ws.append({'name': 'w%d' % i, 'numprocesses': rnd.choice([0, 1, 1, 2, 3, 4]), 'priority': rnd.choice([-3, 0, 1, 2, 2, 5]),
+        ws.append({'name': 'w%d' % i, 'numprocesses': rnd.choice([0, 1, 1, 2, 3, 4]) if rnd.random() < .985 else rnd.choice([101, 130]), 'priority': rnd.choice([-3, 0, 1, 2, 2, 5]),
                    'warmup_delay': rnd.choice([0, 0, .2, 1]), 'autostart': rnd.random() < .8,
                    'graceful_timeout': rnd.choice([0, .2])})
         if rnd.random() < .3:
